@@ -6,6 +6,10 @@ from riolib.effects import effects, transitive_writes
 from riolib import types as T
 from . import layers as LY
 
+THOROUGH_CONFIGS = ['dot', 'router']
+WITNESSES = ['w1']
+
+
 TREE = "regex_radix_tree::"
 REMOVE_RESULT_CALLEES = ("remove",)
 
